@@ -70,3 +70,4 @@ def count(name, lines, ib, stats, meta):
             if len(stats['samples']) < 5 and prev >= 15 and b.op.startswith('st_add'):
                 stats['samples'].append({'op': b.op, 'live_before': prev, 'ret': b.kv.get('ret'), 'count_after': b.kv.get('cnt')})
         if 'cnt' in b.kv: prev = int(b.kv['cnt'])
+EXPLORE = dict(skip_ops=('set_map', 'set_sess', 'set_enum', 'band_set'), ops=('st_add', 'st_find', 'st_remove', 'st_complete', 'st_clear', 'tick', 'adv'), mtu=False, num={'st_add': {3: (0, 65535), 4: (0, 65535)}, 'st_find': {3: (0, 65535)}, 'st_remove': {3: (0, 65535)}, 'adv': {1: (0, 100000)}})
